@@ -114,7 +114,7 @@ Section Dump.
      sx_args [param_call_name false v variadic]].
 
   Definition dump_method (d : mdata) : list str :=
-    [B "M"; dname d; bstr (is_variadic d); bstr (has_params d); bstr (has_returns d); return_statement d;
+    [B "#M"; dname d; bstr (is_variadic d); bstr (has_params d); bstr (has_returns d); return_statement d;
      bstr (accepts_context d); bstr (returns_error d);
      sx_params (arg_list d);
      sx_results (arg_type_list d);
@@ -130,15 +130,15 @@ Section Dump.
      B "(sig " ++ sx_params (fst (signature d)) ++ B " " ++ sx_rlist (snd (signature d)) ++ B ")";
      B "(decl " ++ fst (declaration d) ++ B " " ++ sx_params (fst (snd (declaration d))) ++ B " " ++ sx_rlist (snd (snd (declaration d))) ++ B ")";
      B "(call " ++ fst (call d) ++ B " " ++ sx_args (snd (call d)) ++ B ")"] ++
-    concat (mapi (fun k v => dump_var (B "P") d v (pvariadic d k)) (dparams d)) ++
-    concat (map (fun v => dump_var (B "R") d v false) (dreturns d)) ++
+    concat (mapi (fun k v => dump_var (B "#P") d v (pvariadic d k)) (dparams d)) ++
+    concat (map (fun v => dump_var (B "#R") d v false) (dreturns d)) ++
     map (fun i => bstr (name_exists (dscope d) (qualifier i))) (f_imports f) ++
     map (fun v => bstr (name_exists (dscope d) (vname v))) (dparams d ++ dreturns d) ++
-    [suggest (dscope d) (B "ret")].
+    [suggest (dscope d) (B "ret"); bstr (capture_free d)].
 
   Definition dump_iface (i : idata) : list str :=
-    [B "I"; i_name i; i_struct i; sx_tparams (type_constraint cx i); sx_targs (type_instantiation cx i)] ++
-    concat (map (fun v => [B "TP"; vname v; sx (vrty v); sx_tparams [(vname v, vrty v)]]) (i_tparams i)) ++
+    [B "#I"; i_name i; i_struct i; sx_tparams (type_constraint cx i); sx_targs (type_instantiation cx i)] ++
+    concat (map (fun v => [B "#TP"; vname v; sx (vrty v); sx_tparams [(vname v, vrty v)]]) (i_tparams i)) ++
     concat (map dump_method (i_methods i)).
 
   Definition dump : list str :=
